@@ -8,6 +8,7 @@ mod etok;
 mod etree;
 mod fam;
 mod fchecks;
+mod mchecks;
 mod nchecks;
 mod report;
 mod sut;
